@@ -18,10 +18,15 @@ def main():
     props = [pid]
     if '--props' in sys.argv:
         props = sys.argv[sys.argv.index('--props') + 1].split(',')
-    src = '/tmp/mut/out/%s' % pid
+    srcroot = '/tmp/mut/out'
+    if '--src' in sys.argv:
+        srcroot = sys.argv[sys.argv.index('--src') + 1]
+    src = '%s/%s' % (srcroot, pid)
     patch = os.path.join(src, 'patch_%s.diff' % k)
     demo = os.path.join(src, 'demo_%s_test.go' % k)
     name = '%s-%s' % (pid, k)
+    if '--name' in sys.argv:
+        name = sys.argv[sys.argv.index('--name') + 1]
     out = os.path.join(ROOT, 'seeded', name)
     os.makedirs(out, exist_ok=True)
     wt = '/tmp/mut/eval-' + name
